@@ -30,6 +30,7 @@ func init() {
 			{ID: "C20.R7", Text: "a deadline is a timeout, not a schedule: no configuration option that the module uses as a period (ticker, sleep, timer delay) bounds an operation, and the ping is bounded by HealthCheck.Timeout", Run: c20r7},
 			{ID: "C20.R8", Text: "the deadline is the configured one for every call: no component rewrites the shared configuration after defaulting (same rule as C17.R6)", Run: configImmutable},
 			{ID: "C20.R9", Text: "the server is asked: in every single-operation wrapper each return is dominated by the call that issues the operation, or carries an error known to be non-nil (no answer from a cache)", Run: opAlwaysIssued},
+			{ID: "C20.R10", Text: "no success without confirmation in the checkpoint write ladder (same rule as C05.R15)", Run: upsertLadder},
 			{ID: "C20.R4", Text: "a deadline exists for every operation (own deadline from time.Now, or a deadline-bearing context at every call site)", Run: c20r4},
 		},
 	})
